@@ -91,6 +91,31 @@ def check_valid(pc, goal, timeout_ms=20000, use_cvc5=True, extra=None):
             res["result"] = "sat"
             res["solver"] = "cvc5-1.0.3 (after z3 unknown; no model extracted)"
             res["model"] = {}
+    if res["result"] == "unknown" and use_cvc5:
+        # both solvers gave up: their quantifier heuristics are sensitive to the order of the assertions and to machine
+        # load, so an `unknown` is retried with two other z3 seeds and twice the budget before the obligation is reported
+        # as undischarged (a `sat` is never retried; nothing is ever upgraded to a violation by this)
+        for seed in (7, 23):
+            s2 = z3.Solver()
+            s2.set("timeout", int(timeout_ms * 2))
+            s2.set("random_seed", seed)
+            for a in s.assertions():
+                s2.add(a)
+            t = time.time()
+            r3 = s2.check()
+            res["seconds"] = round(res["seconds"] + time.time() - t, 4)
+            if r3 == z3.unsat:
+                res["result"] = "unsat"
+                res["solver"] = "z3-%s (retry, seed %d)" % (z3.get_version_string(), seed)
+                break
+            if r3 == z3.sat:
+                res["result"] = "sat"
+                res["solver"] = "z3-%s (retry, seed %d)" % (z3.get_version_string(), seed)
+                try:
+                    res["model"] = model_to_dict(s2.model())
+                except Exception:
+                    res["model"] = {}
+                break
     if r == z3.unsat and CROSS["on"] and use_cvc5 and os.path.exists(CVC5):
         try:
             res["cross"] = run_cvc5("(set-logic ALL)\n" + s.to_smt2(), CROSS["tlimit_s"])
